@@ -125,6 +125,18 @@ func prepare(id string, instrument bool) (string, []unit) {
 	hroot := filepath.Join(verifDir, "harness", id)
 	seen := map[string]bool{}
 	var units []unit
+	croot := filepath.Join(verifDir, "harness", "_common")
+	filepath.Walk(croot, func(p string, fi os.FileInfo, err error) error {
+		if err != nil || fi.IsDir() {
+			return nil
+		}
+		rel, _ := filepath.Rel(croot, p)
+		dst := filepath.Join(scratch, rel)
+		os.MkdirAll(filepath.Dir(dst), 0o755)
+		b, _ := os.ReadFile(p)
+		os.WriteFile(dst, b, 0o644)
+		return nil
+	})
 	filepath.Walk(hroot, func(p string, fi os.FileInfo, err error) error {
 		if err != nil || fi.IsDir() {
 			return nil
